@@ -21,7 +21,7 @@ import (
 func init() {
 	register(&Prop{
 		ID: "C15", Level: "fault_enumeration",
-		Rule: "one case = a router with CustomRecoveryWithLogHandler(capturing handler, DefaultHandleRecovery) over all handler kinds, generated routes, request headers carrying unique secret tokens under credential-bearing names in canonical, lower-case and mixed capitalisation (drawn; some with two values or under two capitalisations at once; values of 2, 3 or 12+ bytes) next to ordinary headers, a drawn request-target form (origin-form, absolute-form, no host), and a generated Updates/View program; for that configuration ALL combinations are enumerated of panic value (string, error, wrapped error, nil, custom type, http.ErrAbortHandler bare and wrapped, net.OpError with broken pipe / connection reset / other errno, directly or one wrapping layer down) x response progress at the time of the panic (nothing, header only, partial body, after a failed write) x panic site (route handler, route-specific middleware, route handler reached through an ignored trailing slash, no-route, no-method and options handlers), a panic after every prefix of the Updates/View program run inside a handler, and a panic raised by a middleware constructor while Router.Handle/Update build a route inside a handler (user code running under the writer lock). Oracle: ServeHTTP returns normally (ErrAbortHandler re-raised as the identical value); the simulated connection shows 500 iff nothing had been written and the value is not a broken-connection error, nothing at all for broken connections, an untouched partial response otherwise; exactly one diagnostic record naming route (or scope), parameters and request line and containing none of the secret values; afterwards the routes are unchanged, a follow-up request is served and a write issued under the scheduler completes (writer lock released, else deadlock). Non-trivial: every run (all combinations are executed); distinct = hash of (configuration, header capitalisation, program).",
+		Rule: "one case = a router with CustomRecoveryWithLogHandler(capturing handler, DefaultHandleRecovery) over all handler kinds, generated routes, request headers carrying unique secret tokens under credential-bearing names in canonical, lower-case and mixed capitalisation (drawn; some with two values or under two capitalisations at once; values of 2, 3 or 12+ bytes) next to ordinary headers, a drawn request-target form (origin-form, absolute-form, no host), and a generated Updates/View program; for that configuration ALL combinations are enumerated of panic value (string, error, wrapped error, nil, custom type, http.ErrAbortHandler bare and wrapped, net.OpError with broken pipe / connection reset / other errno, directly or one wrapping layer down) x response progress at the time of the panic (nothing, header only, partial body, after a failed write) x panic site (route handler, route-specific middleware, route handler reached through an ignored trailing slash, a second fox router without Recovery mounted in the route handler, no-route, no-method and options handlers), a panic after every prefix of the Updates/View program run inside a handler, and a panic raised by a middleware constructor while Router.Handle/Update build a route inside a handler (user code running under the writer lock). Oracle: ServeHTTP returns normally (ErrAbortHandler re-raised as the identical value); the simulated connection shows 500 iff nothing had been written and the value is not a broken-connection error, nothing at all for broken connections, an untouched partial response otherwise; exactly one diagnostic record naming route (or scope), parameters and request line and containing none of the secret values; afterwards the routes are unchanged, a follow-up request is served and a write issued under the scheduler completes (writer lock released, else deadlock). Non-trivial: every run (all combinations are executed); distinct = hash of (configuration, header capitalisation, program).",
 		Run:  runC15, Quick: 4000, Thorough: 480000,
 		Real: []string{"Recovery middleware (recovery.go)", "Router.Updates/View abort paths", "recorder ResponseWriter", "ServeHTTP dispatch"},
 		Stub: []string{"slog sink: capturing handler", "net/http connection: simulated connection", "handlers and middleware that panic on script"},
@@ -225,6 +225,7 @@ func runC15(src sim.Source, o Opts) *Result {
 		{Name: "route-handler", Method: "GET", Path: path, Kind: model.KRoute},
 		{Name: "route-middleware", Method: "GET", Path: path, Kind: model.KRoute},
 		{Name: "route-handler-via-ignored-slash", Method: "GET", Path: toggled, Kind: model.KRoute},
+		{Name: "route-handler-mounting-a-second-router", Method: "GET", Path: path, Kind: model.KRoute},
 		{Name: "no-route-handler", Method: "GET", Path: "/zz/none/zz", Kind: model.KNoRoute},
 		{Name: "no-method-handler", Method: "PURGE", Path: path, Kind: model.KNoMethod},
 		{Name: "options-handler", Method: "OPTIONS", Path: path, Kind: model.KOptions},
@@ -274,6 +275,20 @@ func runC15(src sim.Source, o Opts) *Result {
 		return true
 	}
 
+	// a second router to be mounted below a route of the first: every GET reaches its only handler
+	var mountedPanic func(fox.Context)
+	mounted, err := fox.New()
+	if err == nil {
+		for _, pat := range []string{"/", "/*{any}"} {
+			if _, e := mounted.Handle("GET", pat, func(c fox.Context) { mountedPanic(c) }); e != nil {
+				err = e
+			}
+		}
+	}
+	if err != nil {
+		res.Trouble = "mounted router: " + err.Error()
+		return res
+	}
 	for _, st := range sites {
 		for _, pv := range panicValues() {
 			for _, pg := range progress {
@@ -313,6 +328,13 @@ func runC15(src sim.Source, o Opts) *Result {
 						if id >= 300 {
 							doPanic(c)
 						}
+					}
+				} else if st.Name == "route-handler-mounting-a-second-router" {
+					// the route's handler hands writer and request to another fox router (no Recovery of its own) whose
+					// handler writes and panics: the outer recorder saw those writes, the outer Recovery judges by them
+					log.Inner = func(c fox.Context, h *world.Hit) {
+						mountedPanic = doPanic
+						mounted.ServeHTTP(c.Writer(), c.Request())
 					}
 				} else {
 					log.Inner = func(c fox.Context, h *world.Hit) { doPanic(c) }
